@@ -190,11 +190,21 @@ def rule_D3(tree: Tree) -> RuleResult:
         # a frame carries up to 2^14 bytes of record plaintext plus Ethernet/IPv6/TCP headers: the announced snaplen must not be smaller
         ok = sl is None or sl == 0 or (isinstance(sl, int) and sl >= 16384 + 14 + 40 + 60)
     if ok:
+        # the frames written are Ethernet frames: the interface block must say so (dpkt's default); a link type taken from elsewhere
+        # (e.g. the input's first interface) mislabels them
+        for k in wr[0].keywords:
+            if k.arg == "linktype":
+                v = try_fold(k.value)
+                ok = ok and (v == 1 or (dotted(k.value) or "").endswith("DLT_EN10MB"))
+            elif k.arg in ("idb", None):
+                ok = False
+        ok = ok and len(wr[0].args) == 1
+    if ok:
         rcfg = cfg_of(run.node)
         o_n, w_n = rcfg.node_of(opened[0]), rcfg.node_of(wr[0])
         # an output file that was opened is always given its pcapng header (Writer) — no return in between
         ok = rcfg.postdominates(w_n, o_n) and not any(n.kind == "stmt" and isinstance(n.ast, ast.Return) and rcfg.dominates(o_n, n.id) and not rcfg.dominates(w_n, n.id) for n in rcfg.nodes)
-    r.ob(ok, Finding("D3", "main:run:writer", "the result must be written with one dpkt.pcapng.Writer on a file opened 'wb' — constructed on every path once the file is open, also when nothing was decrypted (otherwise a 0-byte, invalid file is left) — as writepkt(bytes(frame), ts) per (frame, ts) pair, and the file closed", run.module.line(run.node)))
+    r.ob(ok, Finding("D3", "main:run:writer", "the result must be written with one dpkt.pcapng.Writer on a file opened 'wb' — constructed on every path once the file is open, also when nothing was decrypted (otherwise a 0-byte, invalid file is left) — as writepkt(bytes(frame), ts) per (frame, ts) pair, with dpkt's default (Ethernet) interface block, and the file closed", run.module.line(run.node)))
     return r
 
 
